@@ -82,6 +82,9 @@ def _spoil(ch: core.Chooser, desc: dict) -> dict:
     return d
 
 
+TRUTHINESS = {"any", "all", "logical_and", "logical_or", "logical_not", "count_nonzero", "nonzero", "where", "isfinite"}
+
+
 def _reorder_names(desc: dict) -> dict:
     """The same polynomials with their indeterminates listed in the opposite order (names and exponent columns
     reversed together): legal, and not what alignment produces."""
@@ -97,10 +100,11 @@ def _reorder_names(desc: dict) -> dict:
 def _retype(ch: core.Chooser, desc: dict) -> dict:
     """Other coefficient dtypes for polynomial arguments (a conversion that is a no-op for one dtype hands the
     argument's own memory on: 'copy only if needed' goes wrong exactly for the dtype that needs no copy)."""
-    if not ch.chance(0.25):
+    truthy = desc.get("op", "").split(".")[-1] in TRUTHINESS  # functions that only ask "is it zero": bool data is their home ground
+    if not ch.chance(0.5 if truthy else 0.25):
         return desc
     d = json.loads(json.dumps(desc))
-    dt = ch.choice(["bool", "bool", "int32", "uint8", "float32", "int8", "float64", "int64"])
+    dt = ch.choice(["bool", "bool", "int32", "uint8", "float32", "int8", "float64", "int64"] + (["bool"] * 6 if truthy else []))
     for a in d["args"]:
         if isinstance(a, dict) and isinstance(a.get("poly"), dict) and a["poly"].get("dtype") in ("int64", "float64"):
             lit = a["poly"]
@@ -258,7 +262,9 @@ class Runner:
             self.bump(f"undecided:{exc.reason}")
             return None
         parents = list(ops.LAST_PARENTS)
-        before = snap((args, kwargs, parents))
+        outs = set(desc.get("outputs", []))  # declared output targets (a copyto destination) are meant to change
+        watched = [a for i, a in enumerate(args) if i not in outs]
+        before = snap((watched, kwargs, parents))
         if "ndpoly-unreadable" in repr(before)[:100000]:
             self.bump("undecided:argument-unreadable-before-call")
             return None
@@ -300,7 +306,7 @@ class Runner:
             self.bump("outcome:natural_raise")
             if isinstance(exc, (Warning, FloatingPointError)) and self.plan.get("environment"):
                 self.bump("fault:environment_escalation.fired")
-        after = snap((args, kwargs, parents))
+        after = snap((watched, kwargs, parents))
         self.bump("decided")
         self.bump(f"op:{desc['op']}")
         label = {"none": "free", "count": "free", "line": "line", "alloc": "alloc"}[mode]
